@@ -3,6 +3,10 @@ From Coq Require Import ZArith Lia Bool.
 From Apd Require Import Generated.Consts Model.Base Model.NumDigits Model.Decimal Proofs.Digits.
 Open Scope Z_scope.
 
+Section WithEst.
+Variable est : Z -> Z.
+Local Notation dreduce := (dreduce est).
+
 Lemma strip10_spec fuel : forall c n,
   0 < c < 2 ^ (Z.of_nat fuel - 1) ->
   exists c' k, strip10 fuel c n = Ok (c', n + k) /\ 0 <= k /\ c = c' * 10 ^ k /\ 0 < c' /\ c' mod 10 <> 0.
@@ -68,7 +72,7 @@ Theorem dreduce_zero x : form_of x = Finite -> coeff x = 0 ->
 Proof.
   intros Hf Hc. unfold dreduce, is_finite. rewrite Hf. cbn [form_eqb negb].
   unfold dsign, is_finite. rewrite Hf, Hc. cbn [form_eqb andb Z.eqb].
-  unfold num_digits. rewrite (num_digits_table go_est 0) by (rewrite bitlen_zero; unfold digitsTableSize; lia).
+  rewrite (num_digits_table est 0) by (rewrite bitlen_zero; unfold digitsTableSize; lia).
   reflexivity.
 Qed.
 
@@ -76,3 +80,5 @@ Theorem dreduce_special x : form_of x <> Finite -> dreduce x = Ok (x, 0).
 Proof.
   intros Hf. unfold dreduce, is_finite. destruct (form_of x); try contradiction; reflexivity.
 Qed.
+
+End WithEst.
